@@ -131,10 +131,12 @@ func (c *conn) handleSubscribe(in *inEnvelope) error {
 	defer c.mu.Unlock()
 
 	if _, ok := c.subscriptions[id]; ok {
+		vh("subscribe.rejected", id, "duplicate")
 		return NewSafeError("duplicate subscription")
 	}
 
 	if len(c.subscriptions)+1 > c.maxSubscriptions {
+		vh("subscribe.rejected", id, "limit")
 		return NewSafeError("too many subscriptions")
 	}
 
@@ -274,6 +276,7 @@ func (c *conn) handleMutate(in *inEnvelope) error {
 	// the id of a live subscription (or of a mutation still in flight) would replace
 	// that entry: its rerunner could then never be stopped or closed again.
 	if _, ok := c.subscriptions[id]; ok {
+		vh("mutate.rejected", id, "duplicate")
 		return NewSafeError("duplicate subscription")
 	}
 
